@@ -45,7 +45,7 @@ Lemma bytes_eqb_refl b : bytes_eqb b b = true.
 Proof. apply bytes_eqb_eq. reflexivity. Qed.
 
 (* ---------- timing ------------------------------------------------------ *)
-Lemma age_ok_spec ma age : negb ((0 <? ma) && (ma <? age)) = true <-> (ma <= 0 \/ age <= ma).
+Lemma age_ok_spec ma lim iat : negb ((0 <? ma) && (iat <? lim)) = true <-> (ma <= 0 \/ lim <= iat).
 Proof.
   rewrite negb_true_iff, andb_false_iff, !Z.ltb_ge. reflexivity.
 Qed.
@@ -355,4 +355,27 @@ Proof.
   - intros H [He|Hp]; rewrite env_secs_spec.
     + rewrite He. simpl. apply max_age_of_default. exact H.
     + destruct (is_nil (e_env_max_age e)); [|rewrite Hp; simpl]; apply max_age_of_default; exact H.
+Qed.
+
+(* for a real clock and maximum age the int64 subtraction is exact *)
+Lemma wrap64_small z : - 2 ^ 63 <= z < 2 ^ 63 -> wrap64 z = z.
+Proof.
+  intro H. unfold wrap64.
+  change (2 ^ 64) with 18446744073709551616. change (2 ^ 63) with 9223372036854775808 in *.
+  rewrite Z.mod_small by lia. lia.
+Qed.
+Lemma times_valid_plain now ma c :
+  0 <= now < 2 ^ 63 -> ma < 2 ^ 63 ->
+  (times_valid now ma c <->
+   (j_exp c = JAbsent \/ exists z, j_exp c = JNum z /\ now < f2i z) /\
+   (j_iat c = JAbsent \/ exists z, j_iat c = JNum z /\ (ma <= 0 \/ now - f2i z <= ma))).
+Proof.
+  intros Hn Hm. unfold times_valid.
+  assert (W : 0 < ma -> wrap64 (now - ma) = now - ma).
+  { intro Hp. apply wrap64_small. change (2 ^ 63) with 9223372036854775808 in *. lia. }
+  split; intros [He Hi]; (split; [exact He|]); destruct Hi as [Hi|[z [Hz Hle]]];
+    try (left; exact Hi); right; exists z; (split; [exact Hz|]);
+    destruct (Z_le_gt_dec ma 0) as [Hm0|Hm0]; try (left; exact Hm0); right;
+    destruct Hle as [Hle|Hle]; try lia;
+    try (rewrite W in Hle by lia; lia); try (rewrite W by lia; lia).
 Qed.
